@@ -179,3 +179,67 @@ class RowAccumulate(Family):
 
     bounded_cases = Cumsum.bounded_cases
     nontrivial = Cumsum.nontrivial
+
+
+@register
+class Diff(Family):
+    """np.diff(ra, n, axis=-1): the flat n-th differences, gathered through the view (row start, max(L - n, 0)):
+    row r keeps exactly the differences whose n+1 operands all lie in row r"""
+    name = "arrayfunctions.diff"
+    qualname = "npstructures.arrayfunctions:diff"
+    serves = ["C07"]
+    assumed = ["numpy.diff(n) of the flat data (bounded stand-in for the values)", "callee contract RaggedView.get_flat_indices (vf.proofs.derived / indices)"]
+
+    def kinds(self):
+        return ["n=sym", "axis=0"]
+
+    def run(self, ctx, kind):
+        from npstructures.raggedshape import RaggedView
+        import npstructures.arrayfunctions as af
+        from ..sym import symnp
+        g = sym_ragged(ctx, kind="int")
+        if kind == "axis=0":
+            ctx.prove("post.other axes not handled", z3.BoolVal(af.diff(g.ra, 1, axis=0) is NotImplemented))
+            return
+        nd = z3.Int("nd")
+        ctx.assume(nd >= 0)
+        rec = {}
+        size = g.S(g.n)
+        dflat = SymArr.symbolic("dflat", z3.If(size - nd > 0, size - nd, 0), "int", np.int64, assume_len=False)
+        real_diff = symnp.SymNumpy.diff
+        symnp.SymNumpy.diff = lambda self_, x, n=1, **kw: rec.setdefault("diff", (x, n)) and dflat
+        old = RaggedView.__dict__["get_flat_indices"]
+
+        def stub(self_, do_split=False):
+            rec["view"] = self_
+            m = z3.Int("m")
+            cur().assume(m >= 0)
+            idx = SymArr.symbolic("idx", m, "int", assume_len=False)
+            cur().assume_forall("addresses inside the differences", lambda t: z3.Implies(z3.And(0 <= t, t < m), z3.And(0 <= idx.fn(t), idx.fn(t) < dim_term(dflat.shape_[0]))))
+            rec["idx"] = idx
+            return idx, "SHAPE"
+        RaggedView.get_flat_indices = stub
+        import npstructures.raggedarray as ramod
+        init_rec = []
+        old_init = ramod.RaggedArray.__init__
+        try:
+            ramod.RaggedArray.__init__ = lambda self_, data, shape=None, *a, **k: init_rec.append((data, shape))
+            af.diff(g.ra, SInt(nd), axis=-1)
+        finally:
+            ramod.RaggedArray.__init__ = old_init
+            RaggedView.get_flat_indices = old
+            symnp.SymNumpy.diff = real_diff
+        ctx.prove("post.differences of the flat data of order n", z3.And(z3.BoolVal(rec["diff"][0] is g.D), I(rec["diff"][1]) == nd))
+        v = rec["view"]
+        r = g.row()
+        ctx.prove("post.row r starts where it started", v.starts.get(r) == g.S(r))
+        ctx.prove("post.row r keeps max(L(r) - n, 0) differences", v.lengths.get(r) == z3.If(g.L(r) - nd > 0, g.L(r) - nd, 0))
+        t = z3.Int("t")
+        ctx.skolem(z3.And(0 <= t, t < dim_term(rec["idx"].shape_[0])))
+        ctx.add_index(t)
+        ctx.prove("post.result gathers those differences, with the view's shape",
+                  z3.And(init_rec[0][0].get(t) == dflat.fn(rec["idx"].fn(t)), z3.BoolVal(init_rec[0][1] == "SHAPE")))
+        # every operand of a kept difference lies inside the row:  c < L(r) - n  =>  S(r) + c + n < S(r) + L(r)
+        c = z3.Int("c")
+        ctx.skolem(z3.And(0 <= c, c < v.lengths.get(r)))
+        ctx.prove("post.a kept difference uses cells of its own row only", z3.And(g.S(r) + c + nd < g.S(r) + g.L(r), g.S(r) + c < dim_term(dflat.shape_[0])))
